@@ -77,6 +77,8 @@ type v16Run struct {
 	lastKillKind     string
 	lastKillAt       time.Time
 	exhausted        bool
+	tcpCallsThisGen  int // TCP() calls served by the current connection (each opens at most one stream)
+	idleWaited       bool
 	curID            string // server-side id ("gen<N>") of the current connection
 	blockedFreed     bool   // the last call blocked and the harness freed a stream slot meanwhile
 }
@@ -252,6 +254,8 @@ func (r *v16Run) checkConnected(pre, post v16Snap, what string) {
 	r.count++
 	r.conn = v16Alive
 	r.curID = lastAuth
+	r.tcpCallsThisGen = 0
+	r.idleWaited = false
 	r.exhausted = false
 	if r.count > 1 {
 		r.reconnects++
@@ -305,6 +309,9 @@ func (r *v16Run) callPatient(kind string, freeAfter time.Duration) (v16CallRes, 
 	}
 	if !r.serverUp {
 		r.callsWhileDown++
+	}
+	if kind == "tcp" {
+		r.tcpCallsThisGen++ // reset by checkConnected when this call builds a new connection
 	}
 	pre := e.snap()
 	t0 := time.Now()
@@ -439,6 +446,16 @@ func (r *v16Run) callPatient(kind string, freeAfter time.Duration) (v16CallRes, 
 			return res, false
 		}
 		if limitErr && kind == "tcp" {
+			// A lost connection whose loss QUIC has not noticed yet can still answer
+			// "stream limit" — but only if the stream credit can be used up. The server
+			// grants 8 streams initially (1 used by the authentication request): with
+			// at most 6 TCP() calls ever made on this connection credit is guaranteed,
+			// so a stream-limit error cannot be genuine: the loss is being reported as
+			// a recoverable error and the client will not reconnect.
+			if r.tcpCallsThisGen <= 6 {
+				r.failf("after the connection was lost (%s%s) %s() reported %s, a recoverable stream-limit error, although only %d TCP() calls were ever made on this connection (server limit %d): the loss must be reported as ClosedError so that the next call reconnects",
+					r.lastKillKind, map[bool]string{true: ", then silence past the idle timeout with no call in flight", false: ""}[r.idleWaited], kind, v16ErrStr(res.err), r.tcpCallsThisGen, v16MaxStreams)
+			}
 			r.class("stream-limit-as-such")
 			return res, false
 		}
@@ -694,6 +711,112 @@ func (r *v16Run) opExhaust(freeAfter time.Duration) {
 	r.quiescent()
 }
 
+// opIdleWait: after a *silent* loss (black hole, vanished server) nothing is
+// called for longer than the idle timeout, so the loss is noticed by QUIC's idle
+// timer alone, with no call in flight. The calls after it are judged by the
+// ordinary model (state lost: the failing call is ClosedError; then reconnect).
+func (r *v16Run) opIdleWait() {
+	r.op("idleWait(%v, no call in flight)", v16IdleWait)
+	time.Sleep(v16IdleWait)
+	r.idleWaited = true
+	r.class("silent-idle-wait")
+	r.quiescent()
+}
+
+func (r *v16Run) silentlyLost() bool {
+	return r.conn == v16Lost && !r.idleWaited && (r.lastKillKind == "blackhole" || r.lastKillKind == "server-down")
+}
+
+// opCloseWhileConfigParked: precondition conn == none, not closed. A call is
+// started; when it is inside configFunc (parked by the harness: "slow DNS")
+// Close() is called from another goroutine; configFunc is released after Close
+// returned or after a bounded wait (an implementation may make Close wait for
+// the call); both are joined. Then: Close is final — no socket open, and a call
+// that came back successful although Close had already returned is a violation.
+func (r *v16Run) opCloseWhileConfigParked(kind string, wait time.Duration) {
+	r.op("closeWhileConfigParked(%s, releaseAfter<=%v)", kind, wait)
+	e := r.e
+	mustFail := r.expectAttemptFailure()
+	if r.kills > 0 {
+		r.closeAfterKill = true
+	}
+	r.class("close-while-config-parked")
+	pre := e.snap()
+	entered := e.armPark()
+	callCh := make(chan v16CallRes, 1)
+	go func() { callCh <- v16Invoke(e.rc, kind) }()
+	select {
+	case <-entered:
+	case res := <-callCh:
+		e.releasePark()
+		if res.tcp != nil {
+			_ = res.tcp.Close()
+		}
+		if res.udp != nil {
+			_ = res.udp.Close()
+		}
+		r.failf("%s() with no live connection returned %s without evaluating configFunc", kind, v16ErrStr(res.err))
+	case <-time.After(v16CallWatchdog):
+		vInconclusive("C16: configFunc was not entered")
+	}
+	closeDone := make(chan struct{})
+	go func() { _ = e.rc.Close(); close(closeDone) }()
+	closeFirst := false
+	select {
+	case <-closeDone:
+		closeFirst = true
+		e.logf("   Close() returned while the call was still inside configFunc")
+	case <-time.After(wait):
+		e.logf("   Close() still blocked after %v (waits for the call): releasing configFunc", wait)
+	}
+	e.releasePark()
+	var res v16CallRes
+	select {
+	case res = <-callCh:
+	case <-time.After(v16CallWatchdog):
+		vInconclusive("C16: the call did not return after configFunc was released")
+	}
+	select {
+	case <-closeDone:
+	case <-time.After(v16CallWatchdog):
+		vInconclusive("C16: Close() did not return")
+	}
+	post := e.snap()
+	e.logf("   %s() -> %s  (configFunc +%d, New +%d, connected +%d)", kind, v16ErrStr(res.err), post.cfg-pre.cfg, post.news-pre.news, post.conn-pre.conn)
+	r.closed = true
+	if res.tcp != nil {
+		_ = res.tcp.Close()
+	}
+	if res.udp != nil {
+		_ = res.udp.Close()
+	}
+	if closeFirst {
+		r.class("close-returned-while-call-in-configFunc")
+		if res.err == nil {
+			r.failf("Close() returned while a %s() call was evaluating the configuration; the call then connected and returned success AFTER Close() (Close is final: the call must fail)", kind)
+		}
+	}
+	if mustFail != "" && (res.err == nil || post.conn != pre.conn) {
+		r.failf("%s() succeeded / reached connectedFunc although the connect attempt had to fail (%s)", kind, mustFail)
+	}
+	switch post.conn - pre.conn {
+	case 0:
+	case 1:
+		e.mu.Lock()
+		last := e.connected[len(e.connected)-1]
+		e.mu.Unlock()
+		if last.count != r.count+1 {
+			r.failf("connectedFunc reported count %d, want %d", last.count, r.count+1)
+		}
+		r.count++
+	default:
+		r.failf("connectedFunc was called %d times for one call", post.conn-pre.conn)
+	}
+	r.conn = v16None
+	r.dropHeld(true)
+	r.quiescent() // closed: no socket may be open
+}
+
 func (r *v16Run) opClose() {
 	r.op("Close()")
 	if r.kills > 0 {
@@ -788,6 +911,9 @@ func v16Step(rt *rapid.T, r *v16Run) {
 			cs = append(cs, v16Choice{"tcp", 2}, v16Choice{"udp", 1})
 		}
 		cs = append(cs, v16Choice{"serverUp", 6}, v16Choice{"close", 1})
+		if r.silentlyLost() {
+			cs = append(cs, v16Choice{"idleWait", 6})
+		}
 	} else {
 		cs = append(cs, v16Choice{"tcp", 6}, v16Choice{"udp", 2}, v16Choice{"close", 1})
 		if r.conn == v16Alive {
@@ -795,6 +921,12 @@ func v16Step(rt *rapid.T, r *v16Run) {
 		}
 		if r.conn == v16Lost {
 			cs = append(cs, v16Choice{"tcp", 4}) // make detection likely
+		}
+		if r.silentlyLost() {
+			cs = append(cs, v16Choice{"idleWait", 10})
+		}
+		if r.conn == v16None {
+			cs = append(cs, v16Choice{"closeParked", 1})
 		}
 		cs = append(cs, v16Choice{"serverDown", 2})
 		if !r.pendingFailures() {
@@ -849,6 +981,12 @@ func v16Step(rt *rapid.T, r *v16Run) {
 		r.opFailNext(rapid.SampledFrom([]string{"config", "factory", "auth"}).Draw(rt, "failKind"), rapid.IntRange(1, 2).Draw(rt, "failK"))
 	case "release":
 		r.opRelease()
+	case "idleWait":
+		r.opIdleWait()
+	case "closeParked":
+		kind := v16Pick(rt, "kind", []v16Choice{{"tcp", 2}, {"udp", 1}})
+		ms := rapid.SampledFrom([]int{1, 5, 30}).Draw(rt, "releaseAfterMs")
+		r.opCloseWhileConfigParked(kind, time.Duration(ms)*time.Millisecond)
 	}
 }
 
@@ -956,6 +1094,63 @@ func TestVerifC16_Regress_StreamLimitRecoverable(t *testing.T) {
 	}
 }
 
+// TestVerifC16_Regress_SilentIdleLoss: a connection that dies silently and is
+// declared dead by the idle timer while no call is in flight: the next call
+// reports ClosedError (not a recoverable error) and the one after it reconnects.
+func TestVerifC16_Regress_SilentIdleLoss(t *testing.T) {
+	st := newVStats("TestVerifC16_Regress_SilentIdleLoss")
+	defer st.Flush()
+	r := v16NewRun(t)
+	defer r.e.teardown()
+	defer func() {
+		st.Case(true, strings.Join(r.ops, ";"), r.classList(), func() string { return strings.Join(r.ops, " ; ") })
+	}()
+	r.start(false, false)
+	r.opTCP(false)
+	r.opKill("blackhole")
+	r.opIdleWait()
+	r.opTCP(false) // must fail with ClosedError
+	if r.conn != v16None {
+		vInconclusive("C16: the silent loss was not noticed" + r.e.history())
+	}
+	r.opTCP(false) // reconnects
+	if r.count != 2 {
+		r.failf("no reconnect after a silent loss")
+	}
+	r.finish()
+}
+
+// TestVerifC16_Regress_CloseDuringConfig: Close() while a (re)connecting call
+// is evaluating the configuration is still final.
+func TestVerifC16_Regress_CloseDuringConfig(t *testing.T) {
+	st := newVStats("TestVerifC16_Regress_CloseDuringConfig")
+	defer st.Flush()
+	for i := 0; i < 3; i++ {
+		r := v16NewRun(t)
+		func() {
+			defer r.e.teardown()
+			defer func() {
+				st.Case(true, strings.Join(r.ops, ";"), r.classList(), func() string { return strings.Join(r.ops, " ; ") })
+			}()
+			switch i {
+			case 0: // lazy start, first call
+				r.start(true, false)
+				r.opCloseWhileConfigParked("tcp", 30*time.Millisecond)
+			case 1: // after a noticed loss
+				r.start(false, false)
+				r.opTCP(false)
+				r.opKill("sock")
+				r.opTCP(false)
+				r.opCloseWhileConfigParked("tcp", 30*time.Millisecond)
+			case 2:
+				r.start(true, false)
+				r.opCloseWhileConfigParked("udp", 5*time.Millisecond)
+			}
+			r.finish()
+		}()
+	}
+}
+
 // ------------------------------------------------------------------ rapid: concurrent callers (invariant-only oracle)
 
 type v16Phase struct {
@@ -963,6 +1158,7 @@ type v16Phase struct {
 	action    string     // none | sock | kick | close
 	actionAt  int        // after this many completed calls (of the phase)
 	closeHere bool
+	park      bool // the next configFunc evaluation of this phase parks until the action has happened
 }
 
 func TestVerifC16_Concurrent(t *testing.T) {
@@ -996,8 +1192,9 @@ func TestVerifC16_Concurrent(t *testing.T) {
 			if ph.action == "close" {
 				closedPlanned = true
 			}
+			ph.park = rapid.IntRange(0, 2).Draw(rt, "parkConfig") == 0
 			phases = append(phases, ph)
-			fp = append(fp, fmt.Sprintf("%s@%d/%d", ph.action, ph.actionAt, total))
+			fp = append(fp, fmt.Sprintf("%s@%d/%d%s", ph.action, ph.actionAt, total, map[bool]string{true: "+park", false: ""}[ph.park]))
 		}
 
 		r := v16NewRun(rt)
@@ -1032,6 +1229,18 @@ func TestVerifC16_Concurrent(t *testing.T) {
 			e.logf("PHASE %d: %d workers, action %s after %d calls", pi, workers, ph.action, ph.actionAt)
 			var completed atomic.Int32
 			var wg sync.WaitGroup
+			var parkEntered chan struct{}
+			if ph.park {
+				parkEntered = e.armPark()
+			}
+			isParked := func() bool {
+				select {
+				case <-parkEntered: // nil channel (no park): never ready
+					return true
+				default:
+					return false
+				}
+			}
 			for w := 0; w < workers; w++ {
 				wg.Add(1)
 				go func(w int, kinds []string) {
@@ -1075,8 +1284,12 @@ func TestVerifC16_Concurrent(t *testing.T) {
 				}(w, ph.calls[w])
 			}
 			// the harness's own action, at the drawn point of the phase
-			for int(completed.Load()) < ph.actionAt {
+			// (a parked configFunc may stall every caller: then act now)
+			for int(completed.Load()) < ph.actionAt && !isParked() {
 				time.Sleep(200 * time.Microsecond)
+			}
+			if isParked() {
+				cls("action-while-configFunc-parked:" + ph.action)
 			}
 			switch ph.action {
 			case "sock":
@@ -1093,6 +1306,15 @@ func TestVerifC16_Concurrent(t *testing.T) {
 				e.logf("harness: Close()")
 				done := make(chan struct{})
 				go func() { _ = e.rc.Close(); close(done) }()
+				if isParked() {
+					// Close may have to wait for the parked call: bounded wait, then release
+					select {
+					case <-done:
+						cls("close-returned-while-call-in-configFunc")
+					case <-time.After(20 * time.Millisecond):
+					}
+					e.releasePark()
+				}
 				select {
 				case <-done:
 				case <-time.After(v16CallWatchdog):
@@ -1102,7 +1324,9 @@ func TestVerifC16_Concurrent(t *testing.T) {
 				closedFlag.Store(true)
 				r.closed = true
 			}
+			e.releasePark()
 			wg.Wait()
+			e.releasePark() // disarm if no configFunc evaluation happened in this phase
 			if e.kick.CompareAndSwap(true, false) {
 				e.logf("harness: kick not consumed in this phase")
 			} else if ph.action == "kick" {
